@@ -194,6 +194,99 @@ def _switch_on_call_result(f, bi, t):
     return None
 
 
+
+def _choices(f, op, depth=0):
+    """the values an operand can hold, one per defining block: follows copies, tuple field reads and two-way assignments"""
+    pl = (op.get("copy") or op.get("move")) if isinstance(op, dict) else None
+    if pl is None or depth > 6:
+        return [(None, deep(f, op, 6))]
+    l, proj = pl["l"], pl.get("p") or []
+    ds = f.full_defs(l)
+    if not ds:
+        return [(None, deep(f, op, 6))]
+    out = []
+    for d in ds:
+        if d[0] != "stmt" and d[0] != "assign" and not (len(d) > 3 and isinstance(d[3], dict)):
+            return [(None, deep(f, op, 6))]
+        st = d[3]
+        if st["k"] != "assign" or st["place"]["p"]:
+            return [(None, deep(f, op, 6))]
+        rv = st["rv"]
+        if rv["k"] == "agg" and rv.get("agg") == "tuple" and len(proj) == 1 and isinstance(proj[0], dict) and isinstance(proj[0].get("f"), int) and proj[0]["f"] < len(rv["ops"]):
+            sub = rv["ops"][proj[0]["f"]]
+            out += [((d[1] if (len(ds) > 1 or b is None) else b), e) for b, e in _choices(f, sub, depth + 1)]
+        elif rv["k"] == "use" and not proj:
+            inner = _choices(f, rv["op"], depth + 1)
+            out += [(d[1] if (b is None or len(ds) > 1) else b, e) for b, e in inner]
+        else:
+            return [(None, deep(f, op, 6))]
+    return out
+
+
+def _dup_location(f, err, note, span_param):
+    e_ch = _choices(f, err["args"][-1])
+    n_ch = _choices(f, note["args"][-1])
+    other_re = r"SymbolManager::get\(P1, HashMap::get\(.*\)@Some\.0\)\.span"
+    if len(e_ch) != 2 or len(n_ch) != 2:
+        return False, "the error is always located at `%s`" % e_ch[0][1][:60]
+    # the comparison of the two positions, and the same-file guard in front of it
+    cmpb = None
+    for bi, si, st in f.stmts():
+        if st["k"] == "assign" and st["rv"]["k"] == "binop" and st["rv"]["op"] in ("Lt", "Gt"):
+            l_, r_ = deep(f, st["rv"]["l"], 8), deep(f, st["rv"]["r"], 8)
+            if "Span::location(" in l_ and "Span::location(" in r_:
+                this_left = l_.startswith("Span::location(%s)" % span_param)
+                this_first_when_true = (st["rv"]["op"] == "Lt") == this_left
+                cmpb = (bi, st["place"]["l"], this_first_when_true)
+    for bi, t in f.calls():
+        m_ = re.search(r"PartialOrd::(lt|gt)$", t.get("callee") or "")
+        if m_ and len(t["args"]) == 2 and t.get("target") is not None:
+            l_, r_ = deep(f, t["args"][0], 8), deep(f, t["args"][1], 8)
+            if "Span::location(" in l_ and "Span::location(" in r_:
+                this_left = l_.startswith("Span::location(%s)" % span_param)
+                cmpb = (t["target"], t["dest"]["l"], (m_.group(1) == "lt") == this_left)
+    if cmpb is None:
+        return False, "the two positions are not compared"
+    guard = False
+    for bi, si, st in f.stmts():
+        if st["k"] == "assign" and st["rv"]["k"] == "binop" and st["rv"]["op"] == "Eq" and all(".file_handle" in deep(f, o_, 6) for o_ in (st["rv"]["l"], st["rv"]["r"])):
+            tt = f.blocks[bi]["term"]
+            if tt["k"] == "switch" and f.edge_dominates(bi, tt["otherwise"], cmpb[0]):
+                guard = True
+    for bi, t in f.calls():
+        if (t.get("callee") or "").endswith("PartialEq::eq") and all(".file_handle" in deep(f, a, 6) for a in t["args"]):
+            bt = T.bool_test(f, t)
+            if bt and f.edge_dominates(bt[2], bt[0], cmpb[0]):
+                guard = True
+    if not guard:
+        return False, "the positions are compared without asking whether both spans lie in the same file"
+    # the branch on the comparison's answer
+    for b in sorted(f.reachable()):
+        tt = f.blocks[b]["term"]
+        if tt["k"] != "switch" or op_local(tt["discr"]) is None:
+            continue
+        root = f.copy_root(op_local(tt["discr"]))
+        if root != f.copy_root(cmpb[1]):
+            continue
+        ft = [tg for v, tg in tt["targets"] if v == "0"]
+        if not ft:
+            continue
+        t_edge, f_edge = tt["otherwise"], ft[0]
+        def pick(ch, edge):
+            xs = [e for bb, e in ch if bb is not None and f.edge_dominates(b, edge, bb)]
+            return xs[0] if len(xs) == 1 else None
+        et, ef, nt, nf = pick(e_ch, t_edge), pick(e_ch, f_edge), pick(n_ch, t_edge), pick(n_ch, f_edge)
+        if None in (et, ef, nt, nf):
+            continue
+        if not cmpb[2]:
+            et, ef, nt, nf = ef, et, nf, nt
+        # `this before other`: the error goes to the other one, the note to this one; otherwise the error is at this declaration
+        if re.fullmatch(other_re, et) and nt == span_param and ef == span_param and re.fullmatch(other_re, nf):
+            return True, ""
+        return False, "with the declaration being made written first the error is located at `%s`, otherwise at `%s`" % (et[:50], ef[:50])
+    return False, "no branch on the answer of the position comparison"
+
+
 def option_tests(f, pred):
     """tests of an Option value whose provenance expression satisfies pred: `match`/`if let` (a switch on its discriminant) as
     well as `.is_some()` / `.is_none()`.  Returns (switch_block, some_edge, none_edge) triples."""
@@ -347,12 +440,11 @@ def declare_rules(run):
             if (f.local_ty(i) or "").endswith("diagn::span::Span"):
                 span_param = "P%d" % i
         okl = len(errs) == 1 and len(notes) == 1 and span_param is not None
+        why = "expected one error and one note in the duplicate branch"
         if okl:
-            e_sp = deep(f, errs[0]["args"][-1], 5)
-            n_sp = deep(f, notes[0]["args"][-1], 6)
-            okl = e_sp == span_param and bool(re.fullmatch(r"SymbolManager::get\(P1, HashMap::get\(.*\)@Some\.0\)\.span", n_sp))
-        run.check(okl, R, R + "|declare|dup-location", f.loc(gt["span"]), "a duplicate is reported at the declaration being made, with a note at the existing one",
-                  "SymbolManager::declare no longer reports a duplicate at the span of the declaration being made (and the existing declaration in the note): the first error would not lie on the line that introduced the duplicate")
+            okl, why = _dup_location(f, errs[0], notes[0], span_param)
+        run.check(okl, R, R + "|declare|dup-location", f.loc(gt["span"]), "a duplicate is reported at the later of the two declarations (same file: by position; otherwise the one being made), with a note at the other",
+                  "SymbolManager::declare does not locate a duplicate at the declaration written later (%s): declarations are not collected in source order (functions after labels, the contents of #if blocks last), and positions of different files cannot be compared; the first error would not lie on the line that introduced the duplicate" % why)
     run.check(f.edge_dominates(gb, gfalse, ibk) and f.edge_dominates(gb, gfalse, pbk), R, R + "|declare|level-before-insert", f.loc(it["span"]),
               "insertion only behind the nesting-level test", "a declaration can be inserted without having passed the nesting-level test")
     # the new declaration: depth = level, context = enclosing[0..level] + name, item_ref = index of the pushed element
